@@ -11,14 +11,15 @@ func init() {
 	register(&Property{
 		ID:         "C21",
 		Level:      "other",
-		Technique:  "scanner-to-automaton abstract interpretation + language equivalence with the RFC 8259 number grammar; finite case analysis of the string scanners' switch conditions (static)",
-		Explain:    "Decides structural necessary conditions of `protojson speaks exactly JSON`: (1) the number scanner of the JSON tokenizer accepts exactly RFC 8259 `number` (automaton extracted from the source by abstract interpretation and compared for language inclusion both ways with the grammar), with no out-of-range index possible; (2) by finite case analysis of the string scanners' switch conditions: the decoder rejects every raw control character and invalid UTF-8 byte, accepts exactly the escape letters \"\\/bfnrtu with their RFC values, and requires a \\u escape for the low half of a surrogate pair; the encoder escapes every character JSON requires, with a letter that denotes it or a \\u followed by exactly four hex digits, and reports invalid UTF-8.",
-		NotCovered: "the token-sequencing state machine of Decoder.Read (commas/colons/nesting), literals true/false/null, Multiline/Indent equivalence of outputs, and the hex-digit check inside \\u (delegated to strconv.ParseUint).",
+		Technique:  "scanner-to-automaton abstract interpretation + language equivalence with the RFC 8259 number grammar; finite case analysis of the string scanners' and of the token-sequencing switch's conditions (static)",
+		Explain:    "Decides structural necessary conditions of `protojson speaks exactly JSON`: (1) the number scanner of the JSON tokenizer accepts exactly RFC 8259 `number` (automaton extracted from the source by abstract interpretation and compared for language inclusion both ways with the grammar), with no out-of-range index possible; (2) by finite case analysis of the string scanners' switch conditions: the decoder rejects every raw control character and invalid UTF-8 byte, accepts exactly the escape letters \"\\/bfnrtu with their RFC values, and requires a \\u escape for the low half of a surrogate pair; the encoder escapes every character JSON requires, with a letter that denotes it or a \\u followed by exactly four hex digits, and reports invalid UTF-8; (3) the token-sequencing switch of Decoder.Read, evaluated for every feasible (previous token, innermost open container) state and every next token kind, accepts exactly the JSON follow relation (values, names, commas, closing brackets, end of input).",
+		NotCovered: "literals true/false/null and whitespace skipping in parseNext, the `:` after a name beyond its presence test, Multiline/Indent equivalence of outputs, and the hex-digit check inside \\u (delegated to strconv.ParseUint).",
 		Quick:      all("./internal/encoding/json"),
 		Thorough:   all("./..."),
 		Run: func(c *Ctx) {
 			c.ruleScanner("R-SCAN-NUMBER", scannerSpec{key: "internal/encoding/json.parseNumber", regex: jsonNumberRx, what: "JSON number (RFC 8259 §6)", usePrefix: true})
 			c.ruleJSONEscapes("R-JSON-ESCAPES")
+			c.ruleJSONFollow("R-JSON-FOLLOW")
 		},
 	})
 	register(&Property{
